@@ -320,20 +320,23 @@ func (c *Ctx) downgradeLoopRange(fn *ssa.Function, lookup ssa.CallInstruction) {
 // forwardClearsRetainFlag: live forwards carry retain=0; retained deliveries keep the flag.
 func (c *Ctx) forwardClearsRetainFlag() {
 	r := c.Roles()
-	var cl *ssa.Function
-	for _, an := range r.Start.AnonFuncs {
-		if an.Signature.Params().Len() == 1 && namedName(an.Signature.Params().At(0).Type()) == "PublishMessage" {
-			cl = an
+	cl := r.Forward
+	var msgParam ssa.Value
+	if cl != nil {
+		for _, p := range cl.Params {
+			if namedName(p.Type()) == "PublishMessage" {
+				msgParam = p
+			}
 		}
 	}
-	if cl == nil {
+	if cl == nil || msgParam == nil {
 		c.R.Unresolved("forwarding closure stored in service.onpub")
 		return
 	}
 	g := paths.New(c.P, cl, 0)
 	send := nodeM(mAny(mCallee(c.P.Func("service", "service", "publish")), mCallee(r.RingWrite)))
 	clear := nodeM(func(call ssa.CallInstruction) bool {
-		return ir.IsMethod(call.Common(), pkgMessage, "PublishMessage", "SetRetain") && isConstBool(call.Common().Args[1], false) && ir.SeeThrough(call.Common().Args[0]) == ssa.Value(cl.Params[0])
+		return ir.IsMethod(call.Common(), pkgMessage, "PublishMessage", "SetRetain") && isConstBool(call.Common().Args[1], false) && ir.SeeThrough(call.Common().Args[0]) == msgParam
 	})
 	pos := c.P.Pos(cl.Pos())
 	if p := reach(g, []paths.Node{g.Entry()}, clear, send, Assume{"call:PublishMessage.Retain": true}); p != nil {
@@ -342,23 +345,7 @@ func (c *Ctx) forwardClearsRetainFlag() {
 		c.R.Ok(ruleP5, "forward:retain-flag-cleared-before-write", pos, "SetRetain(false) precedes the write whenever the flag was set")
 	}
 	// the closure is what is registered as the connection's subscriber
-	stored := false
-	for _, b := range r.Start.Blocks {
-		for _, in := range b.Instrs {
-			if st, ok := in.(*ssa.Store); ok {
-				if p := ir.PathOf(st.Addr); len(p.Fields) == 1 && p.Fields[0] == "onpub" {
-					if mc, ok := ir.SeeThrough(st.Val).(*ssa.MakeClosure); ok && mc.Fn == cl {
-						stored = true
-					}
-					if ct, ok := st.Val.(*ssa.ChangeType); ok {
-						if mc, ok := ct.X.(*ssa.MakeClosure); ok && mc.Fn == cl {
-							stored = true
-						}
-					}
-				}
-			}
-		}
-	}
+	stored := r.Forward == cl // resolved from the store into service.onpub
 	c.R.Check(stored, ruleP9, "forward:closure-is-the-connection-subscriber", pos, "svc.onpub = the forwarding closure", "the closure that clears the retain flag is not what is registered as the connection's subscriber callback")
 	// retained deliveries: direct publish, no clearing of the flag on the way
 	if sub := c.subscribeHandler(); sub != nil {
